@@ -55,6 +55,27 @@ CHECKS = {
         note="Precondition decided from request text; work measured as loop-body executions of the IR, not machine instructions.",
         design="3/C16",
     ),
+    "C09": dict(
+        level="exploration",
+        technique="runtime monitoring at the Tensor API boundary: independent canonical-structure validator and content oracle over raw arrays, items/to_dok, to_format, pickle; fault injection of out-of-range coordinates",
+        text="~50k constructions per quick run: every format of order 0..3 x small dimension tuples x every coordinate subset (bounded-exhaustive), random larger cases with duplicates/shuffles, four entry points; read-back, canonical raw structure, to_format, pickle and ~18k out-of-range injections.",
+        note="Content oracle = summed non-zero entries; explicit-zero storage not prescribed. Known finding K10 (out-of-range under a dense level dropped) is classified by mechanism.",
+        design="3/C09",
+    ),
+    "C11": dict(
+        level="exploration",
+        technique="runtime monitoring at the operator boundary: results decoded from raw arrays vs exact dense arithmetic; exception-type and result-format oracles",
+        text="~6k operator calls per quick run over all operand format pairs of order 0..2, sampled order 3, scalars on either side, @ for all supported order pairs, and shape-mismatch probes.",
+        note="Exact arithmetic on dyadic operands; format rule checked only for natural-order operands.",
+        design="3/C11",
+    ),
+    "C12": dict(
+        level="exploration",
+        technique="runtime monitoring of the parsers: totality on hostile strings, round-trip oracle, and a differential meaning oracle against Python's own expression parser at random rational points",
+        text="~60k hostile strings, 24k generated sentences (round trip + meaning at 3 points), all 443 formats of order <= 4, ~3k rejection probes per quick run.",
+        note="Known findings: interpreter limits (RecursionError / 4300-digit ValueError) and non-finite float literal round trip, classified by mechanism with size thresholds.",
+        design="3/C12",
+    ),
 }
 
 PENDING = {
